@@ -219,16 +219,23 @@ def walk (pol : Nat) (sb : Bytes) : Nat → Nat → Nat → List Bytes → List 
       match newNVar pol sb gs es (slice sb fso (gso - fso)) fso with
       | .error e => .error e
       | .ok none => .ok ⟨es, gs, sb, fso, gso, sb.length⟩
-      | .ok (some (v, gs')) => walk pol sb f (fso + v.size) (sb.length - 16 * gs'.length) gs' (es ++ [v])
+      | .ok (some (v, gs')) =>
+        -- fixes/C04-nvar-table-overlap.diff: the GUID index of this entry may have grown the table into the
+        -- entries (`FreeSpaceOffset > GUIDStoreOffset`): a parse error
+        if sb.length - 16 * gs'.length < fso + v.size then .error .parse
+        else walk pol sb f (fso + v.size) (sb.length - 16 * gs'.length) gs' (es ++ [v])
     else .ok ⟨es, gs, sb, fso, gso, sb.length⟩
 
 /-- `NewNVarStore` -/
 def parseStore (pol : Nat) (b : Bytes) : Except Err Store :=
   walk pol b (b.length + 1) 0 b.length [] []
 
-/-- the nested store Go attached to the entry in `parseContent` (errors there are ignored) -/
+/-- the nested store Go attached to the entry in `parseContent` (errors there are ignored).  Since
+    fixes/C10-nested-ext-header.diff `newNVar` calls `parseContent` only for an entry WITHOUT an extended
+    header (behind `DataOffset` there is content + header; read as a store, the header bytes would sit in
+    the nested store's GUID table): such content stays plain bytes. -/
 def nestedOf (pol : Nat) (v : NVar) : Option Store :=
-  if v.hasContent && (content v).take 4 == sig then
+  if (v.hasContent && !hasBit v.attrs aExtHdr) && (content v).take 4 == sig then
     match parseStore pol (content v) with
     | .ok s => some s
     | .error _ => none
